@@ -179,6 +179,52 @@ func init() {
 		r.Stop()
 		return fmt.Sprintf("callsWithHourlyFrequency=%d calls=%d", slowCalls.Load(), min64(calls.Load(), 1))
 	})
+	// raterun.newstart <pauseMs> <freqMs> <delayMs> — a pause between New and Start: nothing is armed before Start.
+	// Schedules [{0, freq}, {delay, 1h}]. After Start the first invocation comes no earlier than one tick of the first
+	// schedule, and the hourly schedule is not entered before its start delay has run from Start.
+	register("raterun.newstart", func(a []string) string {
+		pause, freq, delay := ms(a[0]), ms(a[1]), ms(a[2])
+		var mu sync.Mutex
+		var firstCall, firstHourly time.Time
+		var calls atomic.Int64
+		r, err := raterun.New(func(f time.Duration) {
+			mu.Lock()
+			if calls.Add(1) == 1 {
+				firstCall = time.Now()
+			}
+			mu.Unlock()
+		}, []raterun.Schedule{{StartDelay: 0, Frequency: freq}, {StartDelay: delay, Frequency: time.Hour}})
+		if err != nil {
+			return "err"
+		}
+		time.Sleep(pause)
+		if calls.Load() != 0 {
+			return "callsBeforeStart=1"
+		}
+		ctx, cancel := context.WithCancel(context.Background())
+		defer cancel()
+		t0 := time.Now()
+		r.Start(ctx)
+		// the number of invocations before the hourly schedule takes over tells when it did: about delay/freq
+		time.Sleep(delay + 3*freq)
+		r.Stop()
+		_ = firstHourly
+		mu.Lock()
+		fc := firstCall
+		mu.Unlock()
+		early := 0
+		if !fc.IsZero() && fc.Sub(t0) < freq-2*time.Millisecond {
+			early = 1
+		}
+		// with the schedule armed at New, the switch to the hourly schedule comes `pause` early: fewer fast ticks
+		// (reported only together with an early first call: on its own a low count can also come from a stalled process)
+		want := int64(delay/freq) - 1
+		fewer := 0
+		if early == 1 && calls.Load() < want-1 {
+			fewer = 1
+		}
+		return fmt.Sprintf("callsBeforeStart=0 firstCallBeforeOneTick=%d switchedBeforeStartDelay=%d calls=%d", early, fewer, min64(calls.Load(), 1))
+	})
 	// raterun.count <freqMs> <runMs> — at most one invocation per tick: calls <= 1 + elapsed/freq
 	register("raterun.count", func(a []string) string {
 		freq, runD := ms(a[0]), ms(a[1])
